@@ -307,3 +307,7 @@ Qed.
 
 Theorem single_config_refused d l : single_new d = Some l -> is_valid_domain d = true /\ l = [d].
 Proof. unfold single_new. destruct (is_valid_domain d); [intros [= <-]; auto|discriminate]. Qed.
+
+(* two different keys never share an encoded path: the encoding is injective (from the round trip) *)
+Corollary pct_encode_injective k1 k2 : wf_bytes k1 = true -> wf_bytes k2 = true -> pct_encode k1 = pct_encode k2 -> k1 = k2.
+Proof. intros W1 W2 E. rewrite <- (pct_roundtrip k1 W1), <- (pct_roundtrip k2 W2), E. reflexivity. Qed.
